@@ -33,7 +33,6 @@ pub struct Compiled {
     pub diag_json: String,
     /// `as_code` outcome: Ok(token text) / Err(diagnostics) / panic.
     pub code: Result<String, String>,
-    pub graph: DfirGraph,
 }
 
 pub struct Run {
@@ -109,7 +108,7 @@ pub fn run(text: &str) -> Run {
             let json = serde_json::to_string(&graph).unwrap();
             let serde_diags: Vec<_> = diags.iter().map(Diagnostic::to_serde).collect();
             let diag_json = serde_json::to_string(&serde_diags).unwrap();
-            Stage::Ok(Box::new(Compiled { part, json, diag_json, code, graph }))
+            Stage::Ok(Box::new(Compiled { part, json, diag_json, code }))
         }
     };
     Run { flat0: Some(flat0), flat: Some(flat1), stage }
